@@ -350,10 +350,50 @@ def r2b_parameter_agreement(ctx: Context) -> None:
     ctx.floor("C18.R2b", "get_schedulable_tasks call sites", n, 8)
 
 
+def r6_frontier_is_recomputed(ctx: Context) -> None:
+    ctx.rule("C18.R6", "the frontier queries (get_schedulable_tasks / get_releasable_tasks of Workload and TaskGraph) are pure "
+                       "queries: they store nothing on `self` and return nothing read from a table kept on `self` - the answer depends on "
+                       "task states that change without the workload being told (Task.release/schedule/start/cancel)")
+    n = 0
+    for rel, cname in ((WORKLOAD, "Workload"), (TASKS, "TaskGraph")):
+        cls = ctx.repo.mod(rel).cls(cname)
+        for mname in ("get_schedulable_tasks", "get_releasable_tasks"):
+            fn = methods(cls).get(mname)
+            if fn is None:
+                continue
+            n += 1
+            stores = []
+            for x in ast.walk(fn):
+                if isinstance(x, (ast.Assign, ast.AugAssign)):
+                    for t in (x.targets if isinstance(x, ast.Assign) else [x.target]):
+                        b = t
+                        while isinstance(b, ast.Subscript):
+                            b = b.value
+                        if is_self_attr(b):
+                            stores.append(norm(x)[:60])
+                if isinstance(x, ast.Call) and isinstance(x.func, ast.Attribute) and x.func.attr in ("append", "extend", "update", "setdefault", "add", "clear", "pop"):
+                    b = x.func.value
+                    while isinstance(b, ast.Subscript):
+                        b = b.value
+                    if is_self_attr(b):
+                        stores.append(norm(x)[:60])
+            cached_returns = [norm(r.value)[:60] for r in ast.walk(fn) if isinstance(r, ast.Return) and r.value is not None
+                              and any(isinstance(y, ast.Subscript) and is_self_attr(y.value) for y in ast.walk(r.value))]
+            ctx.check(not stores and not cached_returns, "C18.R6", f"{rel}::{cname}.{mname}|recomputed on every call", loc(fn), "no memo",
+                      f"{cname}.{mname} keeps or returns remembered answers ({(stores + cached_returns)[:3]}): a second query after a task was "
+                      "scheduled, started or released in between still offers the old set (SCHEDULED/RUNNING tasks without retraction or "
+                      "preemption, or misses a newly released task)")
+    ctx.floor("C18.R6", "frontier query methods", n, 3)
+
+
 def run(ctx: Context) -> None:
     ctx.isolate(r1_offer_table)
     ctx.isolate(r2_monotone)
     ctx.isolate(r3_estimates_not_early)
+    from . import c17
+    ctx.isolate(c17.r7_adjacency_maps_in_step, _alias={"C17.R7": "C18.R4"})
+    ctx.isolate(c06.remaining_time_table, "C18.R5")
+    ctx.isolate(r6_frontier_is_recomputed)
     ctx.isolate(r2b_parameter_agreement)
     ctx.isolate(c02.r4_release_discipline)
     ctx.isolate(c07.r1_one_of_n)
